@@ -86,6 +86,7 @@ def clause_sqlite(prog, rep, sch, sites):
                   "sibling snapshots that may be cascaded away are saved first and re-inserted",
                   "sibling snapshots cascaded away by DELETE FROM %s are not saved and re-inserted" % t, d.loc())
     sqlrules.sibling_snapshot_copy(prog, rep, sites, "sql-columns", "rollback/")
+    clause_key_representation_sql(prog, rep, snap_s, rest_s)
     # 2. column coverage
     for t in S:
         sel = [s for s in snap_s if s.stmt.kind == "SELECT" and s.stmt.table == t]
@@ -169,6 +170,53 @@ def clause_sqlite(prog, rep, sch, sites):
             if label in ("snapshot", "list"):
                 rep.check(ok and wr <= {SNAP}, "frame", "%s/%s %s/no-live-write" % (label, s.stmt.kind, s.stmt.table),
                           "taking/listing writes only the snapshot table", "taking/listing a snapshot writes live table(s) %s" % sorted(wr - {SNAP}), s.loc())
+
+
+def bound_param_locals(f, site):
+    """locals handed as bind parameters to the execution of this SQL text: execute / query_row(sql, params, ..) directly, or
+    prepare(sql) followed by query_map / query / query_row / execute(params, ..) on the prepared statement"""
+    import os, sys
+    sys.path.insert(0, os.path.dirname(os.path.abspath(__file__)))
+    import c12
+    out = []
+    for c in c12.exec_calls(site):
+        if c.name in ("execute", "query_row") and len(c.args) >= 3 and "p" in c.args[2]:
+            out.append(c.args[2]["p"][0])
+        elif c.name in ("prepare", "prepare_cached") and c.dst:
+            stmts = f.flows_from({c.dst[0]}, through_calls=True, stop_calls=lambda x: x.krate not in ("core", "alloc", "std"))
+            for y in f.live_calls():
+                if y.name in ("query_map", "query", "query_row", "execute", "query_and_then", "exists") and y.args and "p" in y.args[0] and len(y.args) >= 2 and "p" in y.args[1]:
+                    dep, _, _ = f.depends_on(y.args[0]["p"][0])
+                    if (dep | {y.args[0]["p"][0]}) & stmts:
+                        out.append(y.args[1]["p"][0])
+    return out
+
+
+def clause_key_representation_sql(prog, rep, snap_s, rest_s):
+    """OpenMLS tables are keyed by the MlsCodec-serialised group id (that is what mls_storage writes), the MDK tables and the snapshot
+    table by the raw id.  A statement of snapshot / restore bound to the other representation matches no row: that part of the group
+    is silently neither captured nor replaced."""
+    core = None
+    n = 0
+    for label, ss in (("snapshot", snap_s), ("rollback", rest_s)):
+        for s in ss:
+            if s.stmt.kind not in ("SELECT", "DELETE", "UPDATE") or not s.stmt.table:
+                continue
+            keycols = [c for c, o, r in s.stmt.where if c in ("group_id", "mls_group_id") and o == "=" and r == "?"]
+            if not keycols:
+                continue
+            want_codec = s.stmt.table.startswith("openmls_")
+            for l in bound_param_locals(s.fn, s):
+                og = A.origins(prog, s.fn, l, scope=None, max_frames=3)
+                has_codec = og.has_call(lambda x: x.name == "serialize" and last_seg(x.self_adt) == "MlsCodec")
+                # only the id parameter matters: statements binding several values (name, id) are judged on whether *any* bound value is codec-made
+                n += 1
+                rep.check(has_codec == want_codec, "sql-scope", "%s/%s %s/key-representation" % (label, s.stmt.kind, s.stmt.table),
+                          "bound group id is %s" % ("the MlsCodec-serialised id (OpenMLS table)" if want_codec else "the raw id (MDK table)"),
+                          "`%s` is bound to %s: the table is keyed by %s, so the statement matches nothing" % (
+                              s.stmt.text[:60], "the MlsCodec-serialised id" if has_codec else "the raw group id",
+                              "the MlsCodec-serialised id" if want_codec else "the raw group id"), s.loc())
+    rep.floor("sql-scope", "snapshot / restore statements with a bound group id", n, 18)
 
 
 def fields_touched(prog, f, adt):
